@@ -433,6 +433,8 @@ def cases(tier):
                   (['uL', 'nL'], [True, 'element']), (['mL', 'g'], [False, True])]
     for us, dens in units_sets:
         out.append(Case('string_quantity[%s|%s]' % (','.join(us), dens), _quantity_case(us, dens), max_paths=mp, timeout_ms=to))
+    for u in ('nL', 'uL', 'mL', 'L', 'kg', 'ng'):
+        out.append(Case('string_quantity[%s first,g]' % u, _quantity_case([u, 'g'], [True, True], spaces=('', ' ') if u in ('L', 'kg') else (' ', ' ')), max_paths=mp, timeout_ms=to))
     out.append(Case('string_quantity[nospace g,mg]', _quantity_case(['g', 'mg'], [True, True], spaces=('', ' ')), max_paths=mp, timeout_ms=to))
     for us, dens, rep in [(['nm', 'um'], ['element', True], None), (['mm', 'cm', 'nm'], [True, 'element', True], None),
                           (['nm', 'nm'], ['element', 'element'], 'whole'), (['um', 'nm'], [True, False], None)]:
